@@ -10,7 +10,7 @@ TECH = {
     "C02": AI + " (put admission/prune, Record order) + provenance/dominance rules for the prefix bounds (custom rustc_private driver)",
     "C03": "interprocedural call-site dominance (ensures fixpoint), who-may-construct; validate_entry/validate_empty acceptance tables by " + AI,
     "C05": AI + " (index selection, selector, full query window over QueryIterator::next with persistent state, stale-index scan) + provenance rules",
-    "C06": "bottom-up effect summaries (Mutate/MayCommit) + who-may-write / who-may-commit over MIR",
+    "C06": "bottom-up effect summaries (Mutate/MayCommit over the call graph) + who-may-write / who-may-commit over MIR + " + AI + " (shared-transaction manager as a transition table)",
     "C07": AI + " (merge table, import transaction, actor import handler, secret_key) + who-may-write (field, table)",
     "C08": AI + " (get_range scans and bounds, fingerprint fold, get_first) + key-shape / component-map provenance",
     "C09": AI + " with a byte-buffer model in which an out-of-bounds index or failed unwrap diverges (decoder and encoder grids) + panic-site audit + tag agreement",
